@@ -205,6 +205,7 @@ def _small(sup, fn):
 
 
 _MEMO = {}
+_NEG = {}
 
 
 def _contradict(M):
@@ -229,7 +230,15 @@ def bnot(a):
         return C0 if a.tt else C1
     if a.kind == 's':
         return _mk('s', a.sup, tuple(1 - t for t in a.tt))
-    return _dep(a.D, [(v, not p) for (v, p) in a.S], [(v, not p) for (v, p) in a.M])
+    # "not a" holds  =>  a itself is false (pseudo-literal), and every literal sufficient for a is false
+    r = _NEG.get(id(a))
+    if r is None:
+        r = _dep(a.D, [(v, not p) for (v, p) in a.S] + [(('#', id(a)), False)],
+                 [(v, not p) for (v, p) in a.M])
+        _NEG[id(a)] = r
+        if r.kind == 'd':
+            _NEG.setdefault(id(r), a)   # involution: not(not a) is a
+    return r
 
 
 def band(a, b):
@@ -269,6 +278,19 @@ def _band(a, b):
         sup = set(a.sup) | set(b.sup)
         if len(sup) <= K:
             return _small(sup, lambda asg: _ev(a, asg) & _ev(b, asg))
+    # unit propagation: literals forced by one operand simplify a Small other operand
+    if a.kind == 's' and b.kind == 'd':
+        a, b = b, a
+    if a.kind == 'd' and b.kind == 's':
+        b2 = b
+        for (v, p) in a.M:
+            if b2.kind == 's' and v in b2.sup:
+                b2 = restrict(b2, v, p)
+        if b2 is C0:
+            return C0
+        if b2 is C1:
+            return a
+        b = b2
     ma, mb, sa, sb = mustx(a), mustx(b), suffx(a), suffx(b)
     # absorption: a => l => b   gives a & b = a
     if ma & sb:
